@@ -787,6 +787,20 @@ func execBackends(isWriter bool) any {
 	return M{"before": before, "after": after}
 }
 
+// recSerializer writes out the format options its two phases were handed
+type recSerializer struct{}
+
+var recSerKey = fmt.Sprintf("%T", &recSerializer{})
+
+func (*recSerializer) Serialize(_ *sbom.Document, _ *native.SerializeOptions, fo interface{}) (interface{}, error) {
+	return fmt.Sprintf("serialize=%v", fo), nil
+}
+
+func (*recSerializer) Render(doc interface{}, w io.Writer, _ *native.RenderOptions, fo interface{}) error {
+	_, err := fmt.Fprintf(w, "%v render=%v", doc, fo)
+	return err
+}
+
 // recBackend records the options every store / retrieve call hands the backend
 type recBackend struct{ seen []string }
 
@@ -952,6 +966,32 @@ func execOptionSlices(isWriter bool) any {
 			if got := js(writerCfg(writer.New(list...))); got != full {
 				bad("a writer built from the caller's option list has %s after another writer was built from its first %d options, before it had %s", got, k, full)
 				break
+			}
+		}
+		// a driver that reports the format options each of its two phases is handed: the options of
+		// the call reach both, whatever the writer itself was built with
+		rec := &recSerializer{}
+		writer.RegisterSerializer("verif/recw", rec)
+		for _, own := range []any{nil, "writer-own"} {
+			var wopts []writer.WriterOption
+			if own != nil {
+				wopts = append(wopts, writer.WithFormatOptions(recSerKey, own))
+			}
+			wr := writer.New(wopts...)
+			co := &writer.Options{Format: "verif/recw"}
+			co.SetFormatOptions(recSerKey, "call-only")
+			buf := nopCloser{&bytes.Buffer{}}
+			if err := wr.WriteStreamWithOptions(tinyDoc, buf, co); err != nil {
+				bad("a write through the recording driver fails: %v", err)
+			} else if got := buf.String(); got != "serialize=call-only render=call-only" {
+				bad("a call with its own driver options on a writer built with %v handed the driver %q", own, got)
+			}
+		}
+		writer.UnregisterSerializer("verif/recw")
+		// a constructor records the format it is given, whether or not something is registered for it yet
+		for _, f := range []formats.Format{"verif/not-registered-yet", formats.SPDX23JSON} {
+			if got := writer.New(writer.WithFormat(f)).Options.Format; got != f {
+				bad("a writer built with format %q has format %q", f, got)
 			}
 		}
 		call := &writer.Options{Format: formats.SPDX23JSON}
